@@ -135,6 +135,36 @@ def big_cases(rng, n):
     return out
 
 
+def same_extremes_cases(rng, n):
+    """blocks that all hold the smallest and the largest label and EQUALLY MANY labels, but different ones in between
+    (e.g. {0,1,3} and {0,2,3}): the union of labels at combine time is not any single block's set"""
+    out = []
+    for _ in range(n):
+        ng = rng.randint(4, 7)
+        nb = rng.randint(2, 5)
+        k = rng.randint(1, ng - 3)
+        labels, chunks = [], []
+        for _b in range(nb):
+            mids = rng.sample(range(1, ng - 1), k)
+            blk = [0] + mids + [ng - 1]
+            if rng.random() < 0.3:
+                blk.append("nan")
+            rng.shuffle(blk)
+            blk += [rng.choice([x for x in blk]) for _ in range(rng.randint(0, 2))]
+            labels += blk
+            chunks.append(len(blk))
+        m = len(labels)
+        func = rng.choice(["sum", "nanmax", "count", "mean", "nanfirst", "min", "argmax", "nansum"])
+        vals = G.rand_vals(rng, m, p_special=0.1 if func.startswith("nan") or func == "count" else 0.0)
+        c = {"func": func, "vals": vals, "labels": labels, "chunks": [chunks], "method": rng.choice(["map-reduce", None, "cohorts"]),
+             "reindex": rng.choice([False, False, None]), "engine": rng.choice(["numpy", "flox"]), "split_every": rng.choice([None, 2]),
+             "expected": list(range(ng)), "fill_value": -7}
+        if rng.random() < 0.3:
+            c["by_dask"] = True
+        out.append(c)
+    return out
+
+
 def nontrivial(case):
     sizes = case["chunks"][0]
     if len(sizes) < 2:
@@ -163,6 +193,7 @@ def run(run: C.Run):
         cases += gen_cases(rng, 1300)
         cases += dense_cases(rng, 400)
     R.check_reduce_cases(run, cases, "C02", nontrivial, grouped_fn=grouped_fn, vs_eager=True)
+    R.check_reduce_cases(run, same_extremes_cases(rng, 1500 if thorough else 300), "C02", nontrivial, grouped_fn=grouped_fn, vs_eager=True)
     # large inputs: eager / NumPy oracle only (not sent to the Coq model)
     R.check_reduce_cases(run, big_cases(rng, 250 if thorough else 40), "C02", nontrivial, grouped_fn=grouped_fn, vs_eager=True, model=False)
     if not proofs_ok and not run.violations:
